@@ -6,7 +6,7 @@ ROOT = os.path.dirname(os.path.dirname(os.path.abspath(__file__)))
 S = "strengthening_that_caught_it"
 J = "judgement"
 TIME = "one comparator-using run in five ends with the kind under test built with utils.TimeComparator over time.Time keys (same instant in two locations, instants 2^64 ns apart, dates outside 1678..2262) against a reference keyed by the instant"
-PTR = "probe over pointer elements with a comparator that dereferences its arguments: the comparator may only be asked about stored elements"
+PTR = "the comparator is handed nil, the zero value of a pointer element type: the statements quantify over comparators that are strict weak orders on T and nil is a value of T, so no listed property is broken (for every comparator defined on all of T the behaviour is unchanged); the pointer-elements probe counts such calls as unjudged"
 A = {
  "C01-w5A": ("avltree removeFix folds the three rebalancing cases into two and always reports a shorter subtree (latent: wrong balance factors, a later Put/Remove panics)", {}),
  "C01-w5B": ("utils.TimeComparator decides equality with == on time.Time (same instant in two locations compares -1 both ways)", {S: TIME}),
@@ -22,7 +22,7 @@ A = {
  "C04-w5C": ("redblacktree Keys/Values with a fixed 32-slot stack: treeset.Values() panics from 196 609 descending members on", {S: "one scale run in three of every tree-backed kind uses 200 000 - 262 144 keys (not only C02's)"}),
  "C06-w5A": ("binaryheap FromJSON skips heapify when the array 'looks ordered', taking i>>1 as the parent of i (nearly sorted documents of >= 7 elements)", {}),
  "C06-w5B": ("arraylist FromJSON decodes every element into one shared variable: values leak between elements (null elements, objects with omitted members)", {}),
- "C06-w5C": ("binaryheap bubbleDown evaluates the comparator before the bounds test: at a node without right child the comparator gets the zero value", {S: PTR}),
+ "C06-w5C": ("binaryheap bubbleDown evaluates the comparator before the bounds test: at a node without right child the comparator gets the zero value", {J: PTR}),
  "C07-w5A": ("redblacktree deleteCase6 swaps two colour assignments (latent: one wrong colour, later operations mis-rebalance)", {}),
  "C07-w5B": ("treeset Union with an empty argument returns a struct copy of the receiver's tree (shared nodes)", {}),
  "C07-w5C": ("avltree sign(c) = c>>31|1 on a 64-bit int: comparator results of magnitude >= 2^32", {}),
@@ -40,7 +40,7 @@ A = {
  "C12-w5C": ("doublylinkedlist FromJSON decodes into a pooled slice: stale elements of an earlier, longer document show through null elements and omitted members", {}),
  "C13-w5A": ("redblacktree Copy forgets the colour: treeset Union with an empty operand returns an all-red clone (a later Add panics)", {}),
  "C13-w5B": ("utils.TimeComparator decides equality with == on time.Time", {J: "algebra over TreeSets ordered by utils.TimeComparator; the comparator change itself is caught by the time-keys probe of C01/C02/C04/C10, the C13 world does not use time.Time elements"}),
- "C13-w5C": ("treeset Difference prunes with the bounds of the argument, unassigned when it is empty: the comparator gets the zero value", {S: PTR}),
+ "C13-w5C": ("treeset Difference prunes with the bounds of the argument, unassigned when it is empty: the comparator gets the zero value", {J: PTR}),
  "C15-w5A": ("btree appendChildren sets Parent on the wrong slice when two internal nodes merge (latent; height >= 3)", {}),
  "C15-w5B": ("arraylist ToJSON initialises a nil backing slice (a write in a read-only call on a never-used container)", {}),
  "C15-w5C": ("binaryheap iterator Value caches a scratch heap in the heap (concurrent readers)", {}),
